@@ -1,6 +1,7 @@
 package props
 
 import (
+	"strings"
 	"fmt"
 	"math/big"
 	"strconv"
@@ -164,34 +165,38 @@ func (w *c09World) opDeposit() {
 	w.invariants()
 }
 
-// deliverWithBankFault delivers msg with an error or a panic injected at the handler's MintCoins or
-// SendCoinsFromModuleToAccount call (the call index is found by a recording run on a discarded branch).
+// deliverWithBankFault: see L2Env.DeliverWithBankFault.
 func (w *c09World) deliverWithBankFault(msg sdk.Msg) (sim.Result, string) {
-	l2 := w.e.L2
-	shadow, spec := l2.Shadow, l2.Speculate
-	l2.Shadow, l2.Speculate = nil, false // foreign calls would shift the call indices
-	defer func() { l2.Shadow, l2.Speculate = shadow, spec }()
-	rec := l2.Branch()
-	l2.F.Arm(-1, sim.FaultError)
-	rec.DeliverGas(100_000_000, msg)
-	calls := append([]sim.Call(nil), l2.F.Calls...)
-	l2.F.Disarm()
-	want := mon.Pick(w.rng, []string{"MintCoins", "SendCoinsFromModuleToAccount"})
-	kind := mon.Pick(w.rng, []sim.FaultKind{sim.FaultError, sim.FaultPanic})
-	for i, c := range calls {
-		if c.Name == want && c.Layer == "opchild.bank" {
-			l2.F.Arm(i, kind)
-			res := l2.DeliverGas(100_000_000, msg)
-			fired := l2.F.Fired
-			l2.F.Disarm()
-			if fired {
-				w.feat["bank_fault_"+kind.String()]++
-				return res, fmt.Sprintf("%s at %s", kind, want)
-			}
-			return res, ""
-		}
+	res, fault := w.e.DeliverWithBankFault(w.rng, 100_000_000, msg)
+	if fault != "" {
+		w.feat["bank_fault_"+strings.Fields(fault)[0]]++
 	}
-	return l2.DeliverGas(100_000_000, msg), ""
+	return res, fault
+}
+
+// opStaleReplay: a committed (not discarded) replay of an already processed L1 sequence that names a denom the chain has
+// never credited — a native token, or a bridged denom not deposited yet with some base denom. The replay is a no-op:
+// in particular it may not register a denom mapping.
+func (w *c09World) opStaleReplay() {
+	if w.nextL1 < 2 {
+		return
+	}
+	e := w.e
+	denom := mon.Pick(w.rng, []string{"unative", "ugas", e.L2Denom("unever"), e.L2Denom("ueth"), e.L2Denom("uinit")})
+	base := mon.Pick(w.rng, []string{"bogus", "unever", "uinit"})
+	seq := 1 + uint64(w.rng.Intn(int(w.nextL1-1)))
+	_, known := w.pairs[denom]
+	res := e.L2.DeliverGas(100_000_000, opchildtypes.NewMsgFinalizeTokenDeposit(mon.Pick(w.rng, e.Executors).String(), "l1replayer", mon.Pick(w.rng, e.Users).String(), sdk.NewCoin(denom, math.NewInt(1000)), seq, 1, base, nil))
+	w.run.Evaluations++
+	w.log = append(w.log, fmt.Sprintf("replay of processed L1 sequence %d naming denom %s base %s -> %s %s", seq, short(denom), base, res.Class, res.ErrString()))
+	got, err := e.L2.Q.BaseDenom(e.L2.Ctx, &opchildtypes.QueryBaseDenomRequest{Denom: denom})
+	if !known {
+		w.run.Check("C09.no_pair_for_non_l1_tokens", err != nil, "c09.stale_replay_registered_denom", w.tr(), "after the replay of a processed sequence, denom %s (never credited by a deposit) maps to base denom %v", denom, got)
+	} else {
+		w.run.Check("C09.denom_pair_write_once", err == nil && got.BaseDenom == w.pairs[denom], "c09.stale_replay_changed_pair", w.tr(), "after the replay of a processed sequence, denom %s maps to %v, fixed mapping is %q", denom, got, w.pairs[denom])
+	}
+	w.feat["stale_replay"]++
+	w.invariants()
 }
 
 func (w *c09World) opWithdraw() {
@@ -343,8 +348,10 @@ func checkC09(run *mon.Run, rng *mon.Rand, thorough bool) {
 				w.opWithdraw()
 			case x < 88:
 				w.opTransfer()
-			case x < 95:
+			case x < 93:
 				w.opDiscarded()
+			case x < 96:
+				w.opStaleReplay()
 			default:
 				e.L2.NextBlock(1e9)
 			}
